@@ -86,6 +86,7 @@ def run_sim(spec):
                 lockset_mod.guard(o, held, lockset['violations'], attr, lockset['count'])
                 lockset['applied'] = True
     reads = []  # (t_end, amt, stream, n_sleeps, slept_total, t_start)
+    cur_op = {}  # stream -> index of the read it is inside
     raised = {}
     bodies = {}
     streams = {}
@@ -111,6 +112,7 @@ def run_sim(spec):
                 if think:
                     sim.park(sim.now + think)
                 t0 = sim.now
+                cur_op[name] = oi
                 before = len([s for s in sim.sleeps if s[0] == name])
                 try:
                     stream.read(amt)
@@ -127,6 +129,7 @@ def run_sim(spec):
         bodies[name] = (st.get('start', 0.0), body)
 
     # abandonment hooks: wrap sim.sleep
+    cur_op.clear()
     sleep_count = {}
     orig = sim.sleep
     aband = {}
@@ -138,7 +141,7 @@ def run_sim(spec):
         st = streams[name][2]
         ab = st.get('abandon')
         if ab and ab['at_sleep'] == k:
-            aband[name] = (sim.now, ab['how'])
+            aband[name] = (sim.now, ab['how'], cur_op.get(name))
             if ab['how'] == 'fail':
                 streams[name][1].set_exception(RuntimeError(f'transfer-of-{name}-failed'))
             elif ab['how'] == 'cancel':
@@ -250,8 +253,15 @@ def check(spec, r):
             _, oi, rep, nsleeps_after, same = info
             if not same:
                 viol.append(V(f'O5: read of failed stream {nm} raised {rep}, not the transfer\'s exception', sym='O5-wrong-exception', **mech0))
-    for nm, (t_ab, how) in r['abandoned'].items():
+    for nm, ab_rec in r['abandoned'].items():
+        t_ab, how = ab_rec[0], ab_rec[1]
+        op_ab = ab_rec[2] if len(ab_rec) > 2 else None
         if how in ('fail', 'cancel'):
+            info = r['raised'].get(nm)
+            if info is not None and info[0] == 'raise' and op_ab is not None and info[1] != op_ab:
+                # the read that was WAITING when the transfer failed has to be the one that raises: it must not hand out data first
+                viol.append(V(f'O5: stream {nm}: read #{op_ab} was waiting for the limit when its transfer failed at t={t_ab:.4f}, yet it returned data; '
+                              f'the error only came out of read #{info[1]}', sym='O5-late-raise', **mech0))
             if nm not in r['raised']:
                 viol.append(V(f'O5: stream {nm} whose transfer failed at t={t_ab:.4f} kept returning data', sym='O5-no-raise', **mech0))
             later = [s for s in r['sleeps'] if s[0] == nm and s[1] > t_ab + 1e-12]
